@@ -122,6 +122,16 @@ class RealProg:
         return np.concatenate(rows, axis=0)
 
 
+def as_container(items, kind):
+    if kind in (None, "list"):
+        return list(items)
+    if kind == "tuple":
+        return tuple(items)
+    if kind == "generator":
+        return (x for x in items)
+    return iter(list(items))
+
+
 class TableAggregator(torch.nn.Module):
     """stand-in for the uninterpreted aggregator of the model: returns the vectors of the counterexample"""
 
@@ -206,7 +216,7 @@ def r_backward(c):
         agg = Agg(c.get("v") or [])
         kw = {}
         if c.get("inputs") is not None:
-            kw["inputs"] = [prog[n] for n in c["inputs"]]
+            kw["inputs"] = as_container([prog[n] for n in c["inputs"]], c.get("container"))
         backward([prog[n] for n in c["outputs"]], agg, parallel_chunk_size=c.get("chunk"), retain_graph=bool(c.get("retain_graph", False)), **kw)
         after = grads(prog, leaf_names)
         ins = c["inputs"] if c.get("inputs") is not None else c.get("expected_inputs", [])
@@ -281,15 +291,18 @@ def r_mtl(c):
         agg = Agg(c.get("v") or [])
         kw = {}
         if c.get("tasks_params") is not None:
-            kw["tasks_params"] = [[prog[n] for n in ps] for ps in c["tasks_params"]]
+            kw["tasks_params"] = [as_container([prog[n] for n in ps], c.get("container")) for ps in c["tasks_params"]]
         if c.get("shared_params") is not None:
-            kw["shared_params"] = [prog[n] for n in c["shared_params"]]
+            kw["shared_params"] = as_container([prog[n] for n in c["shared_params"]], c.get("container"))
         feats = [prog[f] for f in c["features"]]
         mtl_backward([prog[n] for n in c["losses"]], feats if len(feats) > 1 else feats[0], agg, parallel_chunk_size=c.get("chunk"),
                      retain_graph=bool(c.get("retain_graph", False)), **kw)
         after = grads(prog, leaf_names)
         probs = check_mtl_effect(prog, c, agg, before, after, leaf_names)
-        last = dict(reproduced=bool(probs), why=probs[:3], attempt=attempt)
+        key = None
+        if probs and c.get("container") in ("generator", "iterator") and all(after[n] is None or (before[n] is not None and close(after[n], before[n])) for n in leaf_names):
+            key = "mtl_backward:one-shot-iterable-params-consumed-by-overlap-check"
+        last = dict(reproduced=bool(probs), why=probs[:3], attempt=attempt, finding_key=key)
         if probs:
             return last
         del junk
